@@ -651,15 +651,10 @@ func c06StatusFollowsCode(c *core.Ctx, rule string) {
 		}
 		n++
 		miss := false
+		em := loadErrModel(c)
 		for _, cd := range facts.CondsAt(ci.Block()) {
-			if ex, ok := cd.V.(*ssa.Extract); ok && ex.Index == 1 && !cd.Pos {
-				if lk, ok := ex.Tuple.(*ssa.Lookup); ok {
-					if u, ok := lk.X.(*ssa.UnOp); ok {
-						if g, ok := u.X.(*ssa.Global); ok && globalName(g) == "errorStatuses" {
-							miss = true
-						}
-					}
-				}
+			if em.isTableMiss(cd) {
+				miss = true
 			}
 		}
 		c.Check(miss, rule, "MarshalError/status-precedence", ci.Pos(), "an HTTPError's own status is used only when the code table has no entry", "MarshalError takes the status from the HTTPError on a path where the code table may have an entry: the status can disagree with the error code")
